@@ -6,6 +6,7 @@ CONSTANTS
   Mirror = FALSE
   MaxLevel = 3
   Small = TRUE
+  Avoid = FALSE
   SimK = 0
   Acts = {"oset", "rebind", "batch", "ldel"}
 CONSTRAINT LevelBound
